@@ -14,7 +14,8 @@ from ..gen import pipeline as P
 from ..ref import models as R
 from ..ref import vcfparse as V
 
-REPORTS = [[], ["AFP"], ["FORMAT/GP"], ["FORMAT/GL"], ["GP", "GL", "AFP", "AOP", "ACP"], ["INFO/AFP", "AOP"], ["GL", "ACP"]]
+REPORTS = [[], ["AFP"], ["FORMAT/GP"], ["FORMAT/GL"], ["GP", "GL", "AFP", "AOP", "ACP"], ["INFO/AFP", "AOP"], ["GL", "ACP"],
+           ["FORMAT/ACP", "FORMAT/GP"], ["FORMAT/ACP"], ["FORMAT/AOP", "GL"], ["FORMAT/AFP", "FORMAT/GL"], ["FORMAT/AOP"], ["FORMAT/AFP"]]
 
 
 @st.composite
